@@ -15,16 +15,17 @@ from .. import parsers, sim
 ID = "C17"
 
 META = {
-    "rule": "states = command lines: scripts assembled from a pool of 12 decorated functions (bool and Qint signatures, with and without optimizer "
-            "intermediates, single-clause and multi-clause CNFs, constant and multi-bit results), 1-3 functions per script in alphabetical and "
-            "reverse definition order; py2bexp x forms {default, anf, cnf, dnf, nnf} x formats {sympy, dimacs} x entry points x {stdout, -o file} x "
+    "rule": "states = command lines: scripts assembled from a pool of 17 decorated functions (bool and Qint signatures, with and without optimizer "
+            "intermediates, single-clause and multi-clause CNFs, constant and multi-bit results, arguments named like positional qubits) and 2 units that "
+            "bind functions to module names other than their def name (bind of a parameterised function, string-built function), 1-3 per script in "
+            "alphabetical and reverse definition order; py2bexp x forms {default, anf, cnf, dnf, nnf} x formats {sympy, dimacs} x entry points x {stdout, -o file} x "
             "{-i file, stdin}; py2qasm x versions {2.0, 3.0} x entry points x I/O modes; main() is driven in-process. Oracle: sympy format - the "
             "printed text is parsed, its symbols are argument bits, its truth table on ALL assignments equals the conjunction of the selected "
             "function's return bits, the requested normal form holds; DIMACS - header counts match the clause lines and some one-to-one numbering of "
             "the function's variables gives exactly the same models (brute force); py2qasm - the text equals the QASM export of the selected function "
             "compiled with the chosen compiler and passes the C13 QASM reader check. Non-trivial = multi-function script or -e option; distinct = "
             "distinct command lines.",
-    "bound": {"quick": "12 single-function scripts, 14 two/three-function scripts; all forms/formats/entry points; 2 of the 4 I/O modes per command",
+    "bound": {"quick": "17 single-function scripts, 22 multi-function scripts; all forms/formats/entry points; 2 of the 4 I/O modes per command",
               "thorough": "all 4 I/O modes, 30 multi-function scripts"},
     "assumptions": ["the selected function's own expressions (boolev) define what has to be printed; C01 judges those",
                     "a leading 'Warning:' line before a DIMACS block is tolerated"],
@@ -51,6 +52,8 @@ POOL = {
     "fls": "@qlassf\ndef fls(a: Qint[2], b: bool) -> bool:\n    return (a > 3) or (b and not b)\n",
     "ctr": "@qlassf\ndef ctr(a: bool, b: bool) -> Tuple[bool, bool]:\n    return (a and b, not a)\n",
     "tmp": "@qlassf\ndef tmp(a: bool, b: bool, c: bool) -> bool:\n    d = a and b\n    e = d ^ c\n    return (e or d) and not (a and b and c)\n",
+    # a local variable whose name merely contains "_ret"
+    "rty": "@qlassf\ndef rty(a: bool, b: bool, c: bool) -> bool:\n    is_retry = a and b\n    return is_retry or c\n",
     # arguments called like positional qubit names, in a circuit that has an unnamed scratch qubit
     "vot": "@qlassf\ndef vot(q7: bool, q8: bool, q9: bool) -> Tuple[bool, bool]:\n    return (q7 or q8 or q9, (q7 and q8) or (q8 and q9) or (q7 and q9))\n",
 }
@@ -90,7 +93,7 @@ def scripts(tier):
     multi = [["and2", "or2"], ["or2", "and2"], ["xr3", "maj"], ["maj", "xr3"], ["gt2", "add2"], ["add2", "gt2"], ["tmp", "idn"],
              ["cst", "orn3"], ["orn3", "eq3", "mux"], ["mux", "eq3", "orn3"], ["idn", "tmp", "and2"], ["eq3", "cst", "gt2"],
              ["add2", "mux", "or2"], ["maj", "and2", "tmp"], ["rng", "idn"], ["fls", "ctr"], ["ctr", "fls", "cst"],
-             ["bnd"], ["als"], ["bnd", "idn"], ["als", "and2"]]
+             ["bnd"], ["als"], ["bnd", "idn"], ["als", "and2"], ["rty", "fls"]]
     if tier == "thorough":
         multi += [list(p) for p in itertools.permutations(["and2", "xr3", "gt2"], 3)] + [list(p) for p in itertools.permutations(["tmp", "add2"], 2)] + \
                  [["orn3", "or2"], ["or2", "orn3"], ["eq3", "idn"], ["idn", "eq3"], ["cst", "maj", "mux"], ["mux", "maj", "cst"], ["gt2", "tmp"], ["tmp", "gt2"]]
